@@ -165,5 +165,7 @@ package method_evaluator
 //@   ensures[C07] definedArgT != nil && argT != nil && old(argT.tType != base.BLOCK && argT.tType != base.UNTYPED && argT.tType != base.UNKNOWN && argT.tType != base.UNION && definedArgT.tType != base.UNTYPED && definedArgT.tType != base.UNION && definedArgT.tType != argT.tType) ==> !isnil(result)
 //@   # C07: a union argument none of whose variants has the parameter's definite type tag is reported
 //@   ensures[C07] definedArgT != nil && argT != nil && old(argT.tType == base.UNION && definedArgT.tType != base.UNTYPED && definedArgT.tType != base.UNION && forall(i, 0 <= i && i < len(argT.variants) ==> argT.variants[i].tType != base.UNTYPED && argT.variants[i].tType != definedArgT.tType)) ==> !isnil(result)
+//@   # C08: a union parameter with an untyped variant accepts every union argument
+//@   ensures[C08] definedArgT != nil && argT != nil && old(definedArgT.tType == base.UNION && argT.tType == base.UNION && exists(i, 0 <= i && i < len(definedArgT.variants) && definedArgT.variants[i].tType == base.UNTYPED)) ==> isnil(result)
 //@   ensures[C08] definedArgT != nil && argT != nil && old(definedArgT.tType == base.UNION && argT.tType == base.UNION && variantTypesWithin(argT, definedArgT)) ==> isnil(result)
 //@   witness post:0.0#3 "c = true\nx = c ? 1 : \"a\"\ng = GPIO.new(x, 1)\n" expect "type mismatch"
